@@ -14,6 +14,7 @@ mod joinrun;
 mod lts;
 mod names;
 mod obs;
+mod replay;
 mod session;
 mod tree2;
 
@@ -94,6 +95,11 @@ fn main() {
         "hostile" => {
             let cfgs: Vec<String> = get("cfgs", "alt(zr,mem)").split(';').map(|s| s.to_string()).collect();
             println!("{}", hostile::run(&cfgs, &get("cases", ""), get("seed", "1").parse().unwrap(), get("sample", "100").parse().unwrap(), &PathBuf::from(get("out", "work/hostile"))));
+            0
+        }
+        "replay" => {
+            let spec: serde_json::Value = serde_json::from_str(&std::fs::read_to_string(get("spec", "")).expect("spec file")).expect("spec json");
+            println!("{}", replay::run(&spec, &PathBuf::from(get("out", "work/replay"))));
             0
         }
         "emb" => {
